@@ -289,3 +289,58 @@ Proof. exact shuffle_two_rng_accepts. Qed.
 Example C19_rng_accepts_ex :
   shuffle_rng FO0 0 [1%float; 2%float] (set_seed 2) = Some ([2%float; 1%float], 265970916891763066%N).
 Proof. vm_compute. reflexivity. Qed.
+
+(** ** Tie A: the models ARE the source (regenerated from /repo/src/validation/resample.rs on every run by
+    tools/tiea/resample_loops.py).  [src_*] is the Rust function translated statement for statement; the random draws are an
+    abstract source threaded through the statements in execution order (rule R6 of the translator): [sample_ (lo, hi) s] is
+    [DiscreteUniform::sample] of the object [DiscreteUniform::new(lo, hi)] on the generator state [s] of ANY type
+    ([None] = the draw does not return), [du_new] is the constructor's guard ([lo > hi] panics).  The model's index source
+    is [draw_of O sample_ d] = [randomizer.sample() as usize]; [sample_n_z sample_ d k] = [k] successive draws.  The slice
+    fits the address space (at most [isize::MAX] elements, as every Rust slice). *)
+From Compute Require Import Base.RsExpr Base.RsExprMut Base.RsExprMore Generated.resample_loops Proofs.TieA_resample_loops.
+Local Close Scope R_scope.
+(** [DiscreteUniform::new(0, (len - 1) as i64)] (wrapping subtraction, then the two's-complement cast: -1 for empty data, a
+    panic), [n_bootstrap] times [sample_n(len)] and the gather [data[i as usize]] (out of bounds = panic), pushed in order *)
+Theorem C19_model_is_source_bootstrap :
+  forall (T : Type) (O : Ops T) (St : Type) (sample_ : Z * Z -> St -> option (T * St)) (data : list T) (nb : nat) (s : St),
+    (Z.of_nat (length data) <= 9223372036854775808)%Z ->
+    src_bootstrap O du_new (sample_n_z sample_) data (Z.of_nat nb) s
+    = bootstrap (draw_of O sample_ (0, Z.of_nat (length data) - 1)%Z) data nb s.
+Proof. exact @tiea_bootstrap. Qed.
+(** [split_at(i)], [split_first().unwrap()], [front.to_vec()] extended by the rest: never panics *)
+Theorem C19_model_is_source_jackknife :
+  forall (T : Type) (O : Ops T) (data : list T), src_jackknife O data = jackknife data.
+Proof. exact @tiea_jackknife. Qed.
+(** [2 * len] times two draws and [shuf.swap(a as usize, b as usize)] (a position out of bounds = panic) *)
+Theorem C19_model_is_source_shuffle :
+  forall (T : Type) (O : Ops T) (St : Type) (sample_ : Z * Z -> St -> option (T * St)) (data : list T) (s : St),
+    (Z.of_nat (length data) <= 9223372036854775807)%Z ->
+    src_shuffle O du_new sample_ data s = shuffle (draw_of O sample_ (0, Z.of_nat (length data) - 1)%Z) data s.
+Proof. exact @tiea_shuffle. Qed.
+(** the length assertion, then the two arrays swapped in lock-step with the SAME pair of draws *)
+Theorem C19_model_is_source_shuffle_two :
+  forall (T : Type) (O : Ops T) (St : Type) (sample_ : Z * Z -> St -> option (T * St)) (arr1 arr2 : list T) (s : St),
+    (Z.of_nat (length arr1) <= 9223372036854775807)%Z ->
+    src_shuffle_two O du_new sample_ arr1 arr2 s
+    = shuffle_two (draw_of O sample_ (0, Z.of_nat (length arr1) - 1)%Z) arr1 arr2 s.
+Proof. exact @tiea_shuffle_two. Qed.
+(** on the executable model of the generator ([sample_rng] = the repaired [DiscreteUniform::sample] on wyrand + Lemire) the
+    generated functions are the functions the correspondence check runs *)
+Theorem C19_model_is_source_shuffle_rng :
+  forall (T : Type) (O : Ops T) (fuel : nat) (data : list T) (s : rng), (Z.of_nat (length data) <= 9223372036854775807)%Z ->
+    src_shuffle O du_new (sample_rng O fuel) data s = shuffle_rng O fuel data s.
+Proof. exact @tiea_shuffle_rng. Qed.
+Theorem C19_model_is_source_shuffle_two_rng :
+  forall (T : Type) (O : Ops T) (fuel : nat) (a b : list T) (s : rng), (Z.of_nat (length a) <= 9223372036854775807)%Z ->
+    src_shuffle_two O du_new (sample_rng O fuel) a b s = shuffle_two_rng O fuel a b s.
+Proof. exact @tiea_shuffle_two_rng. Qed.
+Theorem C19_model_is_source_bootstrap_rng :
+  forall (T : Type) (O : Ops T) (fuel : nat) (data : list T) (nb : nat) (s : rng), (Z.of_nat (length data) <= 9223372036854775808)%Z ->
+    src_bootstrap O du_new (sample_n_z (sample_rng O fuel)) data (Z.of_nat nb) s = bootstrap_rng O fuel data nb s.
+Proof. exact @tiea_bootstrap_rng. Qed.
+(** not vacuous: the generated [shuffle] on the executable generator reproduces the example above *)
+Example C19_model_is_source_example :
+  src_shuffle FO0 du_new (sample_rng FO0 0) [1%float; 2%float] (set_seed 2) = Some ([2%float; 1%float], 265970916891763066%N) /\
+  src_jackknife FO0 [1%float; 2%float; 3%float] = Some [[2%float; 3%float]; [1%float; 3%float]; [1%float; 2%float]] /\
+  src_shuffle FO0 du_new (sample_rng FO0 0) [] (set_seed 2) = None.
+Proof. vm_compute. repeat split; reflexivity. Qed.
